@@ -125,6 +125,9 @@ def apply_section(evs, s, handle_side):
             s.q = 0
         elif n == 'Q.drain_all':
             s.q = 0  # every buffered value moved out, in order
+        elif n == 'WL.drain_senders':
+            if not s.rb:
+                s.wl = []   # all blocked senders received, in order; the final next_send() on the empty list is the event that follows
         elif n == 'Q.exhausted':
             # the counted drain loop ran queue.len() times: only the executions in which the buffer is now empty exist
             if s.q != 0:
